@@ -1,9 +1,24 @@
 """C06 — virtual-host routing always picks the most specific matching route."""
+import vlib
 import checks.routes_common as rc
+import checks.sessions_common as sc
+
+
+def service_level(v, drv, d, tier, seed):
+    """The routes a real frps holds are those of its live proxies: definitions with several domains / locations / routing
+    users are registered, closed, dropped and replaced through scripted sessions; after every step the route tables of the
+    vhost routers are read and compared with what the live proxies declare (FrpsLifecycle: HeldEqualsLive) - a route left
+    behind by a stopped proxy would keep answering for its host instead of the next most specific live route."""
+    stats = {}
+    tf = d / "lifecycle.ndjson"
+    p = vlib.run_driver(drv, ["lifecycle", "-seed", seed + 17, "-n", 4 if tier == "quick" else 24, "-steps", 14, "-out", tf], timeout=3000)
+    sc.parse_stats(p.stdout, stats)
+    sc.validate(v, "Trace_FrpsLifecycle", (vlib.SPEC / "Trace_FrpsLifecycle.cfg").read_text(), tf, "route tables of a real frps vs its live proxies")
+    v.add_cov(service_level_steps=stats.get("register", 0) + stats.get("close", 0) + stats.get("drop", 0) + stats.get("replace", 0))
 
 
 def run(tier, seed):
-    rc.run("C06", tier, seed, "http,https,tcpmux,serve,serve")
+    rc.run("C06", tier, seed, "http,https,tcpmux,serve,serve", extra=service_level)
 
 
 def replay(path):
